@@ -93,6 +93,10 @@ impl Rng {
         &xs[self.below(xs.len())]
     }
 
+    pub fn pick_str<'a>(&mut self, xs: &[&'a str]) -> &'a str {
+        xs[self.below(xs.len())]
+    }
+
     pub fn pick_weighted(&mut self, weights: &[u32]) -> usize {
         let total: u64 = weights.iter().map(|w| *w as u64).sum();
         let mut r = (self.next_u64() as u128 * total as u128 >> 64) as u64;
